@@ -321,6 +321,23 @@ func init() {
 		return TupleVal{n, IfaceVal{}}, ctlRet
 	})
 
+	// SASLprep (xdg-go/stringprep over x/text Unicode tables, not interpreted): an injective marker function, so that
+	// "was the credential prepared?" is decidable; harnesses compute their expectation through the same function and
+	// the native replay uses the real one
+	reg("(github.com/xdg-go/stringprep.Profile).Prepare", func(ex *Exec, st *State, fr *Frame, args []Value) (Value, ctlT) {
+		in := strArg(args[1])
+		ascii := true
+		for i := 0; i < len(in); i++ {
+			if in[i] >= 0x80 {
+				ascii = false
+			}
+		}
+		if ascii {
+			return TupleVal{StrVal{S: in}, IfaceVal{}}, ctlRet // printable ASCII is its own prepared form (the harnesses use letters and digits)
+		}
+		return TupleVal{StrVal{S: "~" + in + "~"}, IfaceVal{}}, ctlRet
+	})
+
 	// ----- Cond -----
 	// Cond: Wait = unlock L, block until the generation counter moves (Signal/Broadcast), lock L again.
 	// Spurious wake-ups are legal in Go's contract (callers loop), Signal is modelled as Broadcast.
